@@ -112,14 +112,17 @@ AUDITED_PANICS = {
     ("treehash::tree_hash_costed", "unwrap", 1): ("hashes stack: as above", None),
     ("treehash::tree_hash_costed", "panic!", 0): ("assert!(hashes.len() == 1): one hash per processed tree", None),
 }
+# InternalError constructions are inventoried by MESSAGE (moving one into a helper changes nothing): message -> (max count, reason)
 AUDITED_INTERNAL = {
-    "allocator::Allocator::maybe_restore_with_node": (4, "ghost accounting / byte range checks that hold by the checkpoint discipline (C12): defensive"),
-    "allocator::Allocator::new_concat": (5, "callers (op_concat) pass the exact total size and atoms only: defensive"),
-    "allocator::Allocator::new_substr": (1, "callers (op_substr) pass atoms only: defensive"),
-    "run_program::RunProgramContext::<'a, D>::apply_op": (1, "environment stack: pushed by eval_pair before Apply (C04)"),
-    "run_program::RunProgramContext::<'a, D>::pop": (1, "value stack discipline (C04)"),
-    "run_program::RunProgramContext::<'a, D>::run_program": (2, "checkpoint / value stack discipline (C04, C31)"),
-    "run_program::RunProgramContext::<'a, D>::swap_eval_op": (1, "environment stack discipline (C04)"),
+    "ghost atom accounting error": (2, "maybe_restore_with_node: a transparent restore has just turned the atom into a ghost (C04/C12): defensive"),
+    "ghost heap accounting error": (1, "maybe_restore_with_node: the truncated bytes were just added to ghost_heap: defensive"),
+    "invalid atom byte range": (1, "maybe_restore_with_node: storage invariant start <= end <= len(u8_vec): defensive"),
+    "concat passed invalid new_size": (4, "new_concat: op_concat passes the exact total size: defensive"),
+    "concat expected atom, got pair": (1, "new_concat: op_concat passes atoms only: defensive"),
+    "substr expected atom, got pair": (1, "new_substr: op_substr passes an atom: defensive"),
+    "environment stack empty": (2, "apply_op / swap_eval_op: eval_pair pushes the environment before scheduling them (C04 stack discipline)"),
+    "value stack empty": (2, "pop / run_program: value stack discipline (C04)"),
+    "allocator checkpoint stack empty": (1, "run_program: a checkpoint is pushed for every GC candidate before its RestoreAllocator item (C04/C31)"),
 }
 
 # ---- R25e
@@ -368,13 +371,16 @@ def run(ctx):
             for stt in f.stmts(b):
                 rv = stt.get("rv", {})
                 if "agg" in rv and isinstance(rv["agg"][0], dict) and rv["agg"][0].get("variant") == "InternalError":
-                    internal[p] = internal.get(p, 0) + 1
+                    msgs = [x[1] for x in mir.walk(f.expr_op(rv["agg"][1][1])) if x[0] == "str"] if len(rv["agg"][1]) > 1 else []
+                    m = msgs[0] if len(msgs) == 1 else "?"
+                    internal.setdefault(m, []).append(f.where(b))
     ck.floor("explicit panic sites", n_p, 18)
-    for p, n in sorted(internal.items()):
-        aud = AUDITED_INTERNAL.get(p)
-        ck.ob("R25b", p, aud is not None and n <= aud[0], "InternalError constructions in this function are audited (count not above the audited number)",
-              site=cr.fns[p].where(0), detail={"found": n, "audited": aud})
-    ck.floor("functions constructing InternalError", len(internal), 7)
+    for m, sites in sorted(internal.items()):
+        aud = AUDITED_INTERNAL.get(m)
+        ck.ob("R25b", f"InternalError(\"{m}\")", aud is not None and len(sites) <= aud[0],
+              "an InternalError construction reachable from the interpreter is audited (by message; count not above the audited number)",
+              site=sites[0], detail={"sites": sites, "audited": aud})
+    ck.floor("distinct InternalError messages", len(internal), 9)
 
     # ------------------------------------------------------------------ R25d
     counts, n_sites = check_bounds(ck, cr, "R25d", reach)
